@@ -21,6 +21,7 @@ func init() {
 			"C23.R1 MPT: encrypt before serialise at every writeObject / writeStreamObject site",
 			"C23.R2 TABLE: encryptDeepObject covers all string-bearing kinds; call-site argument types are handled kinds",
 			"C23.R3 exempt writers table",
+			"C23.R4 once: in-place encrypting writers are reached only for objects without a write offset (an object encrypted twice with RC4 is plaintext again)",
 		},
 		Assumptions: []string{"objects diverted into object streams are protected by the container's stream encryption"},
 		Technique:   "must-pass-through dataflow with success-edge and nil-key-edge facts keyed on SSA value identity; backward classification of the serialised string; type-switch table extraction and call-site static-type check",
@@ -168,6 +169,7 @@ func runC23(c *Ctx) {
 	p, r := c.P, c.R
 	r.MinInst["C23.R1"] = 12
 	r.MinInst["C23.R2"] = 6
+	runC23R4(c)
 	// ---- R1: writeObject call sites
 	for _, fn := range p.Funcs {
 		if !strings.HasPrefix(FuncID(fn), "pkg/pdfcpu.") {
@@ -538,5 +540,218 @@ func checkEncryptDeepObjectTable(c *Ctx) {
 		r.Bad("C23.R2", FuncID(ed), "skip-keys", p.Pos(ed.Pos()), "encryptDict compares keys/values against "+fmt.Sprint(consts)+": "+bad+" is not part of the documented signature-Contents exemption, so more than /Contents of signature dictionaries may be skipped")
 	} else {
 		r.OK("C23.R2", FuncID(ed), "skip-keys", p.Pos(ed.Pos()), "constants compared in encryptDict: "+fmt.Sprint(consts), true)
+	}
+}
+
+// ---------------- C23.R4: an object is encrypted (in place) at most once ----------------
+//
+// writeDictObject / writeArrayObject / writeStreamDictObject encrypt the object they are given *in place* and then serialise
+// it. Writing the same object a second time encrypts it a second time; with RC4 (a XOR stream under the same per-object key)
+// the second pass restores the plaintext, which is what the xref table then points to. Every call site of an in-place
+// encrypting writer must therefore be reached only when the object number has no write offset yet
+// (`ctx.Write.HasWriteOffset(objNr)` false edge), directly or because every caller of the enclosing function is, or write an
+// object that was created for this write (table).
+
+var c23InPlaceWriters = map[string]bool{
+	"pkg/pdfcpu.writeDictObject": true, "pkg/pdfcpu.writeArrayObject": true, "pkg/pdfcpu.writeStreamDictObject": true,
+	"pkg/pdfcpu.writeObjectGeneric": true,
+}
+
+// c23FreshObjectWriters: functions that write an object whose number was allocated for this write (never reachable twice).
+var c23FreshObjectWriters = map[string]string{
+	"pkg/pdfcpu.writeEncryptDict":        "the encrypt dict is created and numbered once per write",
+	"pkg/pdfcpu.writeXRefStream":         "the xref stream object is created once per write",
+	"pkg/pdfcpu.stopObjectStream":        "the object stream object is created by startObjectStream and closed exactly once",
+	"pkg/pdfcpu.writeObjectStreamObject": "see stopObjectStream",
+	"pkg/pdfcpu.writeRootObject":         "the catalog is written first, once per write; later references to it go through writeIndirectObject (HasWriteOffset)",
+	"pkg/pdfcpu.writeFlatObject":         "WriteIncrement writes each member of Write.ObjNrs once and IncrementWithObjNr keeps that list duplicate-free",
+}
+
+// onceGuardedCalls: local=true also accepts a successful PageTreeVisit.Enter (it vouches for the node entered in this very
+// function, not for the kids handed on to callees).
+func onceGuardedCalls(fn *ssa.Function, local bool, targets func(ref string, callee *ssa.Function) bool) (guarded, unguarded []ssa.CallInstruction) {
+	genE := map[Edge][]string{}
+	eachInstr(fn, func(_ *ssa.BasicBlock, _ int, i ssa.Instruction) {
+		call, ok := i.(*ssa.Call)
+		if !ok {
+			return
+		}
+		_, ref := callRef(call)
+		if ref == "pkg/pdfcpu/model.PageTreeVisit.Enter" && local {
+			// a page tree node is entered once: duplicates and cycles are rejected
+			if es, has := successEdges(call); has {
+				for _, e := range es {
+					genE[e] = append(genE[e], "fresh")
+				}
+			}
+			return
+		}
+		if ref != "pkg/pdfcpu/model.WriteContext.HasWriteOffset" {
+			return
+		}
+		for _, bv := range boolResults(call) {
+			for _, al := range wideAliases(bv) {
+				for _, e := range condEdges(al, false) {
+					genE[e] = append(genE[e], "fresh")
+				}
+			}
+		}
+	})
+	ff := NewFactFlow(fn, nil, genE, nil, nil)
+	eachInstr(fn, func(_ *ssa.BasicBlock, _ int, i ssa.Instruction) {
+		call, ok := i.(ssa.CallInstruction)
+		if !ok {
+			return
+		}
+		_, ref := callRef(i)
+		if !targets(ref, staticCallee(call)) {
+			return
+		}
+		if ff.Holds(i, "fresh") {
+			guarded = append(guarded, call)
+		} else {
+			unguarded = append(unguarded, call)
+		}
+	})
+	return
+}
+
+func runC23R4(c *Ctx) {
+	p, r := c.P, c.R
+	cg := c.CG()
+	r.MinInst["C23.R4"] = 8
+	// fresh(f): every static call of f in the module is once-guarded or sits in a function that is itself fresh.
+	// Greatest fixpoint: start optimistic, falsify until stable (cycles do not poison each other's results).
+	type siteInfo struct {
+		caller *ssa.Function
+		tabOK  bool
+	}
+	unguardedSites := map[*ssa.Function][]siteInfo{}
+	noCallers := map[*ssa.Function]bool{}
+	var subjects []*ssa.Function
+	for _, f := range p.Funcs {
+		if !strings.HasPrefix(FuncID(f), "pkg/") {
+			continue
+		}
+		subjects = append(subjects, f)
+		callers := cg.In[f]
+		if len(callers) == 0 {
+			noCallers[f] = true
+			continue
+		}
+		for _, caller := range callers {
+			f := f
+			_, ung := onceGuardedCalls(caller, false, func(_ string, callee *ssa.Function) bool {
+				return callee != nil && unwrapSynthetic(callee) == f
+			})
+			if len(ung) == 0 {
+				continue
+			}
+			tabOK := false
+			if _, tab := c23FreshObjectWriters[FuncID(caller)]; tab {
+				// the table vouches for the one object the function handles: only calls that hand that object number on
+				tabOK = true
+				for _, call := range ung {
+					if !passesOwnObjNr(caller, call) {
+						tabOK = false
+					}
+				}
+			}
+			unguardedSites[f] = append(unguardedSites[f], siteInfo{caller, tabOK})
+		}
+	}
+	freshVal := map[*ssa.Function]bool{}
+	for _, f := range subjects {
+		freshVal[f] = !noCallers[f]
+	}
+	for changed := true; changed; {
+		changed = false
+		for _, f := range subjects {
+			if !freshVal[f] {
+				continue
+			}
+			for _, si := range unguardedSites[f] {
+				if si.tabOK {
+					continue
+				}
+				if v, known := freshVal[si.caller]; !known || !v {
+					freshVal[f] = false
+					changed = true
+					break
+				}
+			}
+		}
+	}
+	entryFresh := func(f *ssa.Function, _ int) bool { return freshVal[f] }
+	for _, fn := range p.Funcs {
+		fid := FuncID(fn)
+		if !strings.HasPrefix(fid, "pkg/pdfcpu.") {
+			continue
+		}
+		g, ung := onceGuardedCalls(fn, true, func(ref string, _ *ssa.Function) bool { return c23InPlaceWriters[ref] })
+		n := 0
+		for _, call := range g {
+			n++
+			_, ref := callRef(call)
+			r.OK("C23.R4", fid, fmt.Sprintf("%s#%d", ref, n), p.Pos(call.Pos()), "reached only on the HasWriteOffset(objNr) == false edge: the object is encrypted and written once", true)
+		}
+		if len(ung) == 0 {
+			continue
+		}
+		fresh := entryFresh(fn, 0)
+		for _, call := range ung {
+			n++
+			_, ref := callRef(call)
+			construct := fmt.Sprintf("%s#%d", ref, n)
+			if why, ok := c23FreshObjectWriters[fid]; ok {
+				r.OK("C23.R4", fid, construct, p.Pos(call.Pos()), "fresh object: "+why, false)
+			} else if fresh {
+				r.OK("C23.R4", fid, construct, p.Pos(call.Pos()), "every call of "+fn.Name()+" is itself reached only for an object without write offset (or for a fresh object)", true)
+			} else {
+				r.Bad("C23.R4", fid, construct, p.Pos(call.Pos()), "this writer encrypts its object in place, and the call is reachable for an object that may already have been written (no HasWriteOffset test here or in every caller): a second pass re-encrypts it — with RC4 that restores the plaintext in the copy the xref table points to")
+			}
+		}
+	}
+}
+
+// passesOwnObjNr: the call hands on the object number the calling function itself works on (an int parameter of the caller,
+// or the value the caller passes as object number to an in-place writer).
+func passesOwnObjNr(caller *ssa.Function, call ssa.CallInstruction) bool {
+	own := map[ssa.Value]bool{}
+	for _, prm := range caller.Params {
+		if isIntType(prm.Type()) {
+			own[prm] = true
+		}
+	}
+	eachInstr(caller, func(_ *ssa.BasicBlock, _ int, i ssa.Instruction) {
+		if c, ok := i.(*ssa.Call); ok {
+			if _, ref := callRef(c); c23InPlaceWriters[ref] {
+				for _, a := range c.Call.Args {
+					if isIntType(a.Type()) {
+						own[a] = true
+					}
+				}
+			}
+		}
+	})
+	for _, a := range call.Common().Args {
+		if isIntType(a.Type()) && own[a] {
+			return true
+		}
+	}
+	return false
+}
+
+func init() {
+	extraDebug["c23r4"] = func(p *Program) {
+		cg := BuildCG(p)
+		for _, id := range []string{"pkg/pdfcpu.writeObjectGeneric", "pkg/pdfcpu.writeDeepDict", "pkg/pdfcpu.writeLazyObjectStreamObject", "pkg/pdfcpu.writeIndirectObject"} {
+			f := p.Func(id)
+			fmt.Println(id, "callers:")
+			for _, c := range cg.In[f] {
+				g, u := onceGuardedCalls(c, false, func(_ string, callee *ssa.Function) bool { return callee != nil && unwrapSynthetic(callee) == f })
+				fmt.Printf("   %s guarded=%d unguarded=%d\n", FuncID(c), len(g), len(u))
+			}
+		}
 	}
 }
